@@ -53,6 +53,46 @@ def drive_merge_clients(ctx, tier):
             fs.append(sigs.make_func(tuple(ps), name='comb%d' % i))
         ctx.count('driver.combinations')
         _retrieve(wrappers.Combination(*fs))
+    # signatures that stem from ONE function: of the function itself and of partial objects presetting some of its
+    # keyword-passable parameters, merged in both orders and three at a time
+    import functools
+    from sigtools import signatures as S_
+    kw_names = ['u', 'v', 'x', 'y']
+    for _ in range(n // 2):
+        if ctx.out_of_time('merge clients'):
+            break
+        ps = [('arg', PK, None, None)]
+        for nm in ('x', 'y'):
+            if rnd.random() < 0.6:
+                ps.append((nm, PK, '1' if rnd.random() < 0.5 else None, None))
+        ndef = False
+        fixed = []
+        for p_ in ps:           # defaults must form a suffix
+            ndef = ndef or p_[2] is not None
+            fixed.append((p_[0], p_[1], '1' if ndef else None, p_[3]))
+        ps = fixed
+        for nm in ('u', 'v'):
+            if rnd.random() < 0.6:
+                ps.append((nm, KO, '1' if rnd.random() < 0.5 else None, None))
+        if rnd.random() < 0.5:
+            ps.append(('kwargs', VK, None, None))
+        f = sigs.make_func(tuple(ps), name='same_origin')
+        names = [p_[0] for p_ in ps if p_[1] in (PK, KO) and p_[0] != 'arg']
+        if not names:
+            continue
+        sigs_ = [S_.signature(f)]
+        for _k in range(2):
+            preset = rnd.sample(names, rnd.randint(1, len(names)))
+            try:
+                sigs_.append(S_.signature(functools.partial(f, **{nm: 10 for nm in preset})))
+            except Exception:
+                pass
+        ctx.count('driver.same_origin_merges')
+        rnd.shuffle(sigs_)
+        w_alg.call(S_.merge, *sigs_[:2])
+        w_alg.call(S_.merge, *sigs_[:2][::-1])
+        if len(sigs_) >= 3:
+            w_alg.call(S_.merge, *sigs_)
 
 
 def drive_session(ctx, tier, n_cases=None):
